@@ -28,6 +28,8 @@ ASSUMPTIONS = [
 ]
 SHARDS = {"quick": 8, "thorough": 16}
 MIN_REACH = {
+    "samplers_whose_choices_mix_numbers_and_text": {"quick": 5, "thorough": 80},
+    "runs_whose_outputs_are_all_nan": {"quick": 8, "thorough": 150},
     "tables_started_from_rows_given_at_construction": {"quick": 3, "thorough": 60},
     "runs_naming_a_constant_at_the_call": {"quick": 20, "thorough": 400},
     "runs_judged": {"quick": 250, "thorough": 4500},
@@ -63,8 +65,11 @@ def cases(ctx):
             for k, r in enumerate(runs):
                 if rng.random() < 0.35:
                     r["run_constants"] = {"kc": rng.choice([5, 7]) if consts["kc"] == 3 else rng.choice(["yy", "xx"])}
+        for r in runs:
+            # a run over a region where the function has no answer: every output of its rows is NaN (an empty cell in a csv table)
+            r["nan_run"] = rng.random() < 0.15
         yield {"runs": runs, "no_args": no_args, "engine": rng.choice(["pickle", "pickle", "csv"]), "kind": rng.choice(["float", "multi:s,s", "int", "str"]),
-               "constants": consts, "mem_only": rng.random() < 0.1, "seeded_table": rng.random() < 0.15,
+               "constants": consts, "mem_only": rng.random() < 0.1, "seeded_table": rng.random() < 0.15, "mixed_choices": rng.random() < 0.2,
                "default_kind": rng.choice(["lists", "mixed"]), "x_dates": rng.random() < 0.3,
                # table names whose extension asks pandas for compression
                "compress": rng.choice(["", "", "", ".gz", ".xz", ".bz2"])}
@@ -103,13 +108,19 @@ def run_case(ctx, case):
         ctx.count("samplers_without_sampled_arguments")
     base_constants = dict(constants)        # what the Sampler's runner holds; a run may name other values at the call
     POOLS = {"a": [1, 2, 3, 5, 8], "b": ["u", "v", "w"], "x": [0.25, 1.5, -2.75, 10.125]}
+    if case.get("mixed_choices") and engine == "pickle" and not case.get("x_dates"):
+        # choices mixing numbers and a keyword ('auto'): each is handed to the function, and recorded, as it was given
+        POOLS["x"] = [0.25, "auto", 1.5, "exact", -2.75]
+        ctx.count("samplers_whose_choices_mix_numbers_and_text")
     if case.get("x_dates") and engine == "pickle":
         # choices that are nanosecond-resolution dates (a time axis taken from a dataset): rows must hold those dates
         POOLS["x"] = list(np.array(["2021-03-05", "2021-03-06T12:00:00.000000001", "1999-12-31T23:59:59", "2030-01-01"],
                                    dtype="datetime64[ns]"))
         ctx.count("samplers_with_date_choices")
     logfile = os.path.join(tmp, "calls.log")
-    fn = probe.Probe(kind, logfile=logfile, name="sprobe")
+    ctl = os.path.join(tmp, "ctl.json")
+    probe.write_ctl(ctl)
+    fn = probe.Probe(kind, logfile=logfile, ctl=ctl, name="sprobe")
     sig = {"api": "sampler", "engine": engine, "kind": kind.split(":")[0]}
 
     def new_sampler(rng, **skw):
@@ -246,6 +257,10 @@ def run_case(ctx, case):
             rck = {"constants": dict(run["run_constants"])}
             constants.update(run["run_constants"])          # what this run's rows were computed with, and must record
             ctx.count("runs_naming_a_constant_at_the_call")
+        nan_run = bool(run.get("nan_run")) and kind in ("float", "multi:s,s")
+        probe.write_ctl(ctl, **({"nan_results": True} if nan_run else {}))
+        if nan_run:
+            ctx.count("runs_whose_outputs_are_all_nan")
         try:
             with quiet():
                 np.random.seed(run["rseed"] % (2 ** 32))
@@ -317,6 +332,8 @@ def run_case(ctx, case):
                         bad.append("row argument %s=%r is not among the allowed choices %s" % (a, r[a], allowed[a]))
                 kw = {a: r[a] for a in args}
                 v = probe.make(kind, {**kw, **constants})
+                if nan_run:
+                    v = tuple(float("nan") for _ in v) if isinstance(v, tuple) else float("nan")
                 exp = {"y": v[0], "z": v[1]} if kind.startswith("multi") else {"y": v}
                 for o in outs:
                     d = refmodel.deep_eq(r[o], exp[o])
